@@ -102,6 +102,10 @@ func init() {
 						for _, v := range vals {
 							rec(i+1, append(cur, p(instants[i], v)))
 						}
+						if len(cur) <= 1 {
+							// an ordinary NaN (not the staleness marker) as the newest sample
+							layouts = append(layouts, append(append([]core.Pt(nil), cur...), p(instants[i], math.NaN())))
+						}
 					}
 				}
 				// instants must be increasing for a valid series: sort first
@@ -599,7 +603,7 @@ func init() {
 				for _, wv := range []core.Window{core.Range(10000, 30000, 12), core.Instant(45000)} {
 					for _, l := range operands {
 						for _, r := range operands {
-							ms := []string{"", "on (l)", "ignoring (m)", "on (l) group_left", "on (l) group_right"}
+							ms := []string{"", "on (l)", "ignoring (m)", "on (l) group_left", "on (l) group_right", "on (__name__)", "on (__name__, l) group_left", "ignoring (__name__, m)"}
 							for _, q := range gen.BinsOver(l, r, gen.BinOps, ms, true) {
 								cq := gen.Canon(q)
 								if cq == "" {
